@@ -3,13 +3,14 @@ from lib import terms
 from props import dbcommon as D
 
 ID = 'C14'
-IMPORTS = ['Engine.Db', 'Engine.DbCursor', 'Engine.DbFacts', 'Engine.DbOpen', 'Engine.RunDb', 'Engine.DbProg', 'Engine.RunDbProg']
+IMPORTS = ['Engine.Db', 'Engine.DbCursor', 'Engine.DbFacts', 'Engine.DbOpen', 'Engine.RunDb', 'Engine.DbProg', 'Engine.RunDbProg', 'Engine.DbProgMeta', 'Engine.RunDbProgMeta']
 THEOREMS = ['C14_cursor_visits_snapshot', 'C14_query_snapshot_at_first_next', 'C14_retract_at_most_once',
             'C14_retract_at_most_once_from_init', 'C14_no_lost_update', 'C14_cursor_finite', 'C14_retract_goal_finite',
             'C14_compiled_no_lost_update', 'C14_compiled_retract_at_most_once', 'C14_retract_cursor_in_snapshot_order',
             'C14_compiled_run_is_cursor_history', 'C14_compiled_cursor_visits_snapshot', 'C14_compiled_history_no_lost_update',
             'C14_compiled_cut_not_propagated', 'C14_compiled_cut_ends_own_clause_only',
-            'C14_retract_answer_is_stored', 'C14_after_clear_only_new_facts']
+            'C14_retract_answer_is_stored', 'C14_after_clear_only_new_facts',
+            'C14_meta_no_lost_update', 'C14_meta_retract_at_most_once', 'C14_meta_findall_runs_to_completion']
 RULE = ('(a) event histories with 1-4 simultaneously suspended cursors (queries and retracts, started through the API, '
         'compiled clauses, call/1 and goals held in variables) mostly on ONE predicate, with asserta/assertz/retractall/'
         'clear and answers of other retract cursors between any two next(); all predicates read back after every event; '
@@ -322,6 +323,8 @@ def gen(rng, tier):
             c['kind'] = 'events'
         extra += big
     extra += [D.gen_dbprog_grown(rng, loopy=0.7) for i in range(30 if tier == 'quick' else 500)]
+    # round 6: the database reached through call/N, once/1, findall/3 (model: DbProgMeta)
+    extra += [D.gen_dbprog_meta(rng, loopy=0.7) for i in range(70 if tier == 'quick' else 1200)]
     return D.spread(cases, extra)
 
 def builtin_corpus():
@@ -463,6 +466,8 @@ def distribution(cases, obs):
             d['ended'][e] = d['ended'].get(e, 0) + 1
             continue
         if k == 'dbprog':
+            if c.get('meta'):
+                d['kinds']['dbprog with meta-calls'] = d['kinds'].get('dbprog with meta-calls', 0) + 1
             e = 'dbprog:' + (o['end'] if isinstance(o, dict) else 'other')
             d['ended'][e] = d['ended'].get(e, 0) + 1
             continue
